@@ -310,3 +310,16 @@ def run(ctx):
     ef.propagates(tl)
     for (g, c, where, ok, detail) in ef.checked_sites:
         ctx.check(ok, "R9.3", "propagate:%s->%s" % (g, c), where, "error of %s dropped in %s: %s" % (g, c, detail))
+
+
+_run_base = run
+
+
+def run(ctx):
+    _run_base(ctx)
+    prog = ctx.prog
+    ctx.rule("R9.5", "every thread is relocated into its own final directory: for thread 5 of process 77 the temporary "
+             "and the final thread directories are <procdir>/thread.5 (two threads sharing a final directory would "
+             "overwrite a stream that is already marked finished)")
+    from rules import round4
+    round4.check_final_thread_dir(ctx, "R9.5")
